@@ -57,25 +57,19 @@ func continueWalk(f *vstat.Failure, gin, gout *model.Graph, root string, el mode
 				ro, ok := model.RefOf(nout)
 				if !ok {
 					known := ""
-					if tp.Doc == root && throughHolder(gin, tp) {
+					if k6Shape(gin, root, pin, r, tp) {
 						known = "K6"
-					}
-					// second shape of K6: the unresolvable $ref is fragment-only and sits in an imported document; left
-					// verbatim in the root being rewritten, it becomes resolvable there if the root happens to have a
-					// member at that pointer, and a later $ref to the rewritten element then follows it
-					if pin.Doc != root && strings.HasPrefix(r, "#") {
-						if n, err := gin.Get(model.Pos{Doc: root, Ptr: tp.Ptr}); err == nil {
-							if _, isObj := n.(map[string]any); isObj {
-								known = "K6"
-							}
-						}
 					}
 					f.AddKnown(known, "DANGLING-REF-NOT-KEPT", pout.Ptr, "unresolvable schema $ref %q (input %s) is not left in place at %s: output holds %s", r, pin, pout.Ptr, model.JS(nout))
 					return
 				}
 				cr, err := spec.NewRef(r)
 				if err == nil && ro != cr.String() {
-					f.Add("DANGLING-REF-REWRITTEN", pout.Ptr, "unresolvable schema $ref %q (input %s) was rewritten to %q at %s", r, pin, ro, pout.Ptr)
+					known := ""
+					if k6Shape(gin, root, pin, r, tp) {
+						known = "K6" // followed in the rewritten root and, landing on a cycle there, replaced by that cycle's $ref
+					}
+					f.AddKnown(known, "DANGLING-REF-REWRITTEN", pout.Ptr, "unresolvable schema $ref %q (input %s) was rewritten to %q at %s", r, pin, ro, pout.Ptr)
 				}
 				return
 			}
@@ -194,6 +188,23 @@ func allDanglingAreK6(g *model.Graph, root string) bool {
 		}
 	})
 	return some && all
+}
+
+// k6Shape: the structural matcher of known finding K6 for one unresolvable $ref r found at pin (target tp).
+func k6Shape(gin *model.Graph, root string, pin model.Pos, r string, tp model.Pos) bool {
+	// shape 1: a pointer into the root that passes through a $ref holder
+	if tp.Doc == root && throughHolder(gin, tp) {
+		return true
+	}
+	// shape 2: fragment-only, in an imported document, and the root has an object at that pointer
+	if pin.Doc != root && strings.HasPrefix(r, "#") {
+		if n, err := gin.Get(model.Pos{Doc: root, Ptr: tp.Ptr}); err == nil {
+			if _, isObj := n.(map[string]any); isObj {
+				return true
+			}
+		}
+	}
+	return false
 }
 
 func oracleC08once(c c08Case) (*vstat.Failure, c08Info) {
